@@ -373,3 +373,42 @@ func (e *Eng) havocFieldsExceptTag(st *State, v Val, key string) {
 func reflectTagGet(tag, key string) string {
 	return reflect.StructTag(tag).Get(key)
 }
+
+// closureUnit makes a function literal assigned to a local variable
+// ("parent#var") a unit of verification: its parameters are symbolic and so
+// are the variables it captures.
+func (u *Universe) closureUnit(pkgPath, key string) *FuncInfo {
+	parentKey, varName, _ := strings.Cut(key, "#")
+	parent := u.funcs[pkgPath+"."+parentKey]
+	if parent == nil {
+		return nil
+	}
+	var lit *ast.FuncLit
+	ast.Inspect(parent.Decl.Body, func(n ast.Node) bool {
+		switch n := n.(type) {
+		case *ast.AssignStmt:
+			for i, l := range n.Lhs {
+				if id, ok := l.(*ast.Ident); ok && id.Name == varName && i < len(n.Rhs) {
+					if fl, ok := n.Rhs[i].(*ast.FuncLit); ok && lit == nil {
+						lit = fl
+					}
+				}
+			}
+		case *ast.ValueSpec:
+			for i, id := range n.Names {
+				if id.Name == varName && i < len(n.Values) {
+					if fl, ok := n.Values[i].(*ast.FuncLit); ok && lit == nil {
+						lit = fl
+					}
+				}
+			}
+		}
+		return true
+	})
+	if lit == nil {
+		return nil
+	}
+	sig, _ := parent.Pkg.TypesInfo.TypeOf(lit).(*types.Signature)
+	return &FuncInfo{Key: key, Pkg: parent.Pkg, Obj: parent.Obj, Sig: sig,
+		Decl: &ast.FuncDecl{Name: ast.NewIdent(varName), Type: lit.Type, Body: lit.Body}}
+}
